@@ -291,6 +291,7 @@ def run(pid, tier, seed, args, t0):
             "oracle_failures": len(fails),
             "known_findings_reproduced": sorted(matched.keys()),
             "partial": getattr(prop, "PARTIAL", ""),
+            "exhaustive": bool(getattr(prop, "EXHAUSTIVE", False)) and tier in getattr(prop, "EXHAUSTIVE_TIERS", ("quick", "thorough")),
         },
         "assumptions": list(getattr(prop, "ASSUMPTIONS", [])),
         "wall_s": round(time.time() - t0, 2),
